@@ -8,7 +8,7 @@ from .. import batcher_drv as D
 from .. import batcher_gen as G
 
 PROP = 'C11'
-READY = False
+READY = True
 PROPS_MODULE = 'C11'
 MODEL_TARGETS = ['theories/Case_C11.vo']
 HEADER = ('From Coq Require Import List NArith. Import ListNotations.\n'
@@ -34,7 +34,7 @@ ALLOWED_AXIOMS = []
 LEVEL_NOTE = ('trusted: Coq kernel + vm_compute; asyncio primitives (Queue, wait_for, FIFO Semaphore, shield, Future '
     'done-callbacks, call_later, task wake-up order) are modelled in Batcher.v and validated only by the '
     'correspondence runs; harness/vloop.py, harness/batcher_drv.py, coq/theories/Case_Batcher.v (agree + monitors).  '
-    'Monitor soundness is proved only for the simple conjuncts (monitor_sound_partial); the other conjuncts are tied '
+    'The state-free conjuncts of the monitors (ok_basic) are proved complete and sound; full-monitor soundness is proved only for simple conjuncts (monitor_sound_partial); the other conjuncts are tied '
     'to the theorems through agree (model trace = observed trace) on every case')
 TECHNIQUE = D.TECHNIQUE
 
@@ -157,5 +157,7 @@ LEVEL_TEXT = ('On the macro-step model of AsyncBackgroundBatcher (coq/theories/B
     'timer was armed for the future currently cached under its key, retention_timeout after its completion (no stale '
     'timer evicts a younger entry, the pop finds the key).  Tied to /repo by differential correspondence under the '
     'virtual-time loop, incl. tasks that call again in the continuation of their answer; the monitor ok_C11 judges '
-    'the observed trace independently of the model (monitor_sound_partial: acceptance implies no batch carries a key '
-    'twice).')
+    'the observed trace independently of the model (monitor_basic_complete / monitor_basic_sound: the state-free '
+    'conjuncts — no TaskDied, completion clock, no double completion, non-empty duplicate-free batches not in the '
+    'future — accept every model trace for all event lists and imply these facts; monitor_sound_partial for the full '
+    'monitor).')
